@@ -75,6 +75,61 @@ func main() {
 		}
 		return
 	}
+	if os.Getenv("AVROCHECK_CONTRACTS") != "" {
+		e := newContractEnv(P)
+		for _, ct := range P.CodecTypes() {
+			fmt.Printf("%-30s", ct.Name)
+			for _, m := range []string{"Read", "Write", "Omit"} {
+				fn := ct.M[m]
+				if fn == nil {
+					continue
+				}
+				pi := len(fn.Params) - 1
+				fmt.Printf(" %s:%s", m, e.ParamContract(fn, pi, nil))
+			}
+			fmt.Printf(" New:%s\n", e.NewContract(ct.M["New"]))
+		}
+		return
+	}
+	if os.Getenv("AVROCHECK_TABLES") != "" {
+		bs := P.Builders()
+		P.computeEntryKinds(bs)
+		for _, b := range bs {
+			fmt.Printf("== %s entryK=%s paths=%d budget=%v\n", fnKey(b.Fn), b.EntryK, len(b.Paths), b.Budget)
+			seen := map[string]bool{}
+			for _, p := range b.Paths {
+				r := P.classifyReturn(p)
+				tp := "typ"
+				if b.TypParam != nil {
+					tp = b.TypParam.Name()
+				}
+				desc := ""
+				switch {
+				case r.Reject:
+					desc = "reject"
+				case r.Delegate != nil:
+					desc = "-> " + r.Delegate.Call.Value.String()
+				case r.Codec != nil:
+					desc = "codec " + typeKey(r.Codec)
+				default:
+					desc = "? " + r.Other
+				}
+				st, ex, excl := "", false, []string(nil)
+				if b.Schema != nil {
+					st, ex, excl = p.State.strOf(b.Schema.Name() + ".Type")
+					if !ex {
+						st = "!" + strings.Join(excl, ",")
+					}
+				}
+				line := fmt.Sprintf("  K=%s EK=%s ST=%s  %s", p.State.kindsOf(tp), p.State.kindsOf(tp+".Elem()"), st, desc)
+				if !seen[line] {
+					seen[line] = true
+					fmt.Println(line)
+				}
+			}
+		}
+		return
+	}
 	if *list {
 		for _, ct := range P.CodecTypes() {
 			fmt.Printf("%-34s ptr=%v", ct.Name, ct.Ptr)
